@@ -1,3 +1,249 @@
 package sym
 
-func (x *Exec) registerReflect() {}
+import (
+	"go/types"
+
+	"golang.org/x/tools/go/ssa"
+
+	"gowp/smt"
+)
+
+// Assumed contracts of reflect.Value as used through xreflect.Value (the trust boundary; the
+// Forward indirection of xreflect for emulated recursive types is not modelled).
+//
+// A reflect.Value v is an opaque scalar. If it is settable it denotes a cell whose content lives in
+// the ghost heap keys rcell#int, rcell#uint, rcell#float, rcell#cre/#cim, rcell#str, rcell#bool
+// (arrays indexed by v); rkind(v) is the kind of the cell:
+//
+//	v.Int()      = rcell#int[v]                       (already sign-extended to 64 bits)
+//	v.SetInt(x)  : rcell#int[v] := wrap(x, rkind(v))   (truncate to the cell's width, sign-extend)
+//
+// and likewise for Uint/Float/Complex/String/Bool. reflect.ValueOf(i) is rv_of(typ, payload); its
+// accessors are the pure functions iface_int(typ, payload) etc.
+
+const (
+	kBool = 1 + iota
+	kInt
+	kInt8
+	kInt16
+	kInt32
+	kInt64
+	kUint
+	kUint8
+	kUint16
+	kUint32
+	kUint64
+	kUintptr
+	kFloat32
+	kFloat64
+	kComplex64
+	kComplex128
+)
+const kString = 24
+
+var kindNames = map[uint64]string{1: "Bool", 2: "Int", 3: "Int8", 4: "Int16", 5: "Int32", 6: "Int64", 7: "Uint", 8: "Uint8", 9: "Uint16", 10: "Uint32", 11: "Uint64", 12: "Uintptr", 13: "Float32", 14: "Float64", 15: "Complex64", 16: "Complex128", 17: "Array", 18: "Chan", 19: "Func", 20: "Interface", 21: "Map", 22: "Ptr", 23: "Slice", 24: "String", 25: "Struct", 26: "UnsafePointer"}
+
+// KindType maps a reflect.Kind of the 17 optimised kinds to its Go basic type.
+func KindType(k uint64) types.Type {
+	switch k {
+	case kBool:
+		return types.Typ[types.Bool]
+	case kInt:
+		return types.Typ[types.Int]
+	case kInt8:
+		return types.Typ[types.Int8]
+	case kInt16:
+		return types.Typ[types.Int16]
+	case kInt32:
+		return types.Typ[types.Int32]
+	case kInt64:
+		return types.Typ[types.Int64]
+	case kUint:
+		return types.Typ[types.Uint]
+	case kUint8:
+		return types.Typ[types.Uint8]
+	case kUint16:
+		return types.Typ[types.Uint16]
+	case kUint32:
+		return types.Typ[types.Uint32]
+	case kUint64:
+		return types.Typ[types.Uint64]
+	case kUintptr:
+		return types.Typ[types.Uintptr]
+	case kFloat32:
+		return types.Typ[types.Float32]
+	case kFloat64:
+		return types.Typ[types.Float64]
+	case kComplex64:
+		return types.Typ[types.Complex64]
+	case kComplex128:
+		return types.Typ[types.Complex128]
+	case kString:
+		return types.Typ[types.String]
+	}
+	return nil
+}
+
+func kindCategory(k uint64) string {
+	switch {
+	case k == kBool:
+		return "bool"
+	case k >= kInt && k <= kInt64:
+		return "int"
+	case k >= kUint && k <= kUintptr:
+		return "uint"
+	case k == kFloat32 || k == kFloat64:
+		return "float"
+	case k == kComplex64 || k == kComplex128:
+		return "complex"
+	case k == kString:
+		return "str"
+	}
+	return ""
+}
+
+var rvSort = smt.Un("O_reflect_Value")
+
+func (x *Exec) rkind(v *smt.Term) *smt.Term { return x.B.UF("rkind", I64, v) }
+
+func rvOf(a Value) *smt.Term {
+	switch v := a.(type) {
+	case *smt.Term:
+		return v
+	case *Struct:
+		if len(v.Fields) == 1 {
+			return rvOf(v.Fields[0])
+		}
+	}
+	unsupported("reflect value expected")
+	return nil
+}
+
+// wrapInt: the value an integer cell of kind k holds after SetInt(x), as int64.
+func (x *Exec) wrapInt(v *smt.Term, k *smt.Term, signed bool) *smt.Term {
+	B := x.B
+	ext := func(w int) *smt.Term {
+		if signed {
+			return B.SignExt(64-w, B.Extract(w-1, 0, v))
+		}
+		return B.ZeroExt(64-w, B.Extract(w-1, 0, v))
+	}
+	kc := func(n uint64) *smt.Term { return B.Eq(k, B.BVC(n, 64)) }
+	if signed {
+		return B.Ite(kc(kInt8), ext(8), B.Ite(kc(kInt16), ext(16), B.Ite(kc(kInt32), ext(32), v)))
+	}
+	return B.Ite(kc(kUint8), ext(8), B.Ite(kc(kUint16), ext(16), B.Ite(kc(kUint32), ext(32), v)))
+}
+
+func (x *Exec) wrapFloat(v *smt.Term, k *smt.Term) *smt.Term {
+	B := x.B
+	return B.Ite(B.Eq(k, B.BVC(kFloat32, 64)), B.FPConv(B.FPConv(v, smt.FP32), smt.FP64), v)
+}
+
+func (x *Exec) rcell(st *State, cat string, s *smt.Sort) *smt.Term {
+	return x.heapGet(st, "rcell#"+cat, smt.Array(rvSort, s))
+}
+
+func (x *Exec) registerReflect() {
+	B := x.B
+	xv := "(github.com/cosmos72/gomacro/xreflect.Value)."
+	get := func(cat string, s *smt.Sort, pure string) *libFn {
+		return &libFn{apply: func(f *Frame, st *State, ins ssa.Instruction, args []Value) (Value, bool) {
+			x.note("library spec: reflect.Value accessors Int/Uint/Float/Complex/String/Bool read the cell in the accessor's category; setters truncate to the cell's kind (xreflect.Forward not modelled)")
+			v := rvOf(args[0])
+			if v.Op == "uf" && v.Name == "rv_of" {
+				if cat == "complex" {
+					return &Struct{[]Value{B.UF("iface_cre", smt.FP64, v.Args...), B.UF("iface_cim", smt.FP64, v.Args...)}}, true
+				}
+				return B.UF(pure, s, v.Args...), true
+			}
+			if cat == "complex" {
+				return &Struct{[]Value{B.Select(x.rcell(st, "cre", smt.FP64), v), B.Select(x.rcell(st, "cim", smt.FP64), v)}}, true
+			}
+			return B.Select(x.rcell(st, cat, s), v), true
+		}, mods: noMods}
+	}
+	x.lib[xv+"Int"] = get("int", I64, "iface_int")
+	x.lib[xv+"Uint"] = get("uint", I64, "iface_uint")
+	x.lib[xv+"Float"] = get("float", smt.FP64, "iface_float")
+	x.lib[xv+"Complex"] = get("complex", smt.FP64, "")
+	x.lib[xv+"String"] = get("str", StrS, "iface_str")
+	x.lib[xv+"Bool"] = get("bool", smt.Bool, "iface_bool")
+	set := func(cat string) *libFn {
+		return &libFn{apply: func(f *Frame, st *State, ins ssa.Instruction, args []Value) (Value, bool) {
+			v := rvOf(args[0])
+			k := x.rkind(v)
+			switch cat {
+			case "int":
+				a := x.rcell(st, "int", I64)
+				x.heapSet(st, "rcell#int", B.Store(a, v, x.wrapInt(args[1].(*smt.Term), k, true)))
+			case "uint":
+				a := x.rcell(st, "uint", I64)
+				x.heapSet(st, "rcell#uint", B.Store(a, v, x.wrapInt(args[1].(*smt.Term), k, false)))
+			case "float":
+				a := x.rcell(st, "float", smt.FP64)
+				x.heapSet(st, "rcell#float", B.Store(a, v, x.wrapFloat(args[1].(*smt.Term), k)))
+			case "complex":
+				c := args[1].(*Struct)
+				is64 := B.Eq(k, B.BVC(kComplex64, 64))
+				w := func(t *smt.Term) *smt.Term { return B.Ite(is64, B.FPConv(B.FPConv(t, smt.FP32), smt.FP64), t) }
+				x.heapSet(st, "rcell#cre", B.Store(x.rcell(st, "cre", smt.FP64), v, w(c.Fields[0].(*smt.Term))))
+				x.heapSet(st, "rcell#cim", B.Store(x.rcell(st, "cim", smt.FP64), v, w(c.Fields[1].(*smt.Term))))
+			case "str":
+				x.heapSet(st, "rcell#str", B.Store(x.rcell(st, "str", StrS), v, args[1].(*smt.Term)))
+			case "bool":
+				x.heapSet(st, "rcell#bool", B.Store(x.rcell(st, "bool", smt.Bool), v, args[1].(*smt.Term)))
+			}
+			return &Struct{}, true
+		}, mods: func(*ssa.CallCommon) []string { return []string{"rcell#"} }}
+	}
+	x.lib[xv+"SetInt"] = set("int")
+	x.lib[xv+"SetUint"] = set("uint")
+	x.lib[xv+"SetFloat"] = set("float")
+	x.lib[xv+"SetComplex"] = set("complex")
+	x.lib[xv+"SetString"] = set("str")
+	x.lib[xv+"SetBool"] = set("bool")
+	x.lib["github.com/cosmos72/gomacro/xreflect.ValueOf"] = &libFn{apply: func(f *Frame, st *State, ins ssa.Instruction, args []Value) (Value, bool) {
+		i := args[0].(*Struct)
+		rv := B.UF("rv_of", rvSort, i.Fields[0].(*smt.Term), x.scalar(i.Fields[1], nil))
+		return &Struct{[]Value{rv}}, true
+	}, mods: noMods}
+	x.lib["(github.com/cosmos72/gomacro/xreflect.Type).Kind"] = &libFn{apply: func(f *Frame, st *State, ins ssa.Instruction, args []Value) (Value, bool) {
+		return x.xtypeKind(args[0]), true
+	}, mods: noMods}
+	x.lib[xv+"Kind"] = &libFn{apply: func(f *Frame, st *State, ins ssa.Instruction, args []Value) (Value, bool) {
+		return x.rkind(rvOf(args[0])), true
+	}, mods: noMods}
+	x.lib[xv+"IsValid"] = &libFn{apply: func(f *Frame, st *State, ins ssa.Instruction, args []Value) (Value, bool) {
+		return B.UF("rvalid", smt.Bool, rvOf(args[0])), true
+	}, mods: noMods}
+}
+
+// ifaceConst gives the K-typed constant stored in an interface value (spec side of
+// K(xr.ValueOf(i).Int()) and friends).
+func (x *Exec) ifaceConst(iface *Struct, k uint64) Value {
+	B := x.B
+	typ := iface.Fields[0].(*smt.Term)
+	pay := x.scalar(iface.Fields[1], nil)
+	t := KindType(k)
+	switch kindCategory(k) {
+	case "bool":
+		return B.UF("iface_bool", smt.Bool, typ, pay)
+	case "int":
+		return B.Extract(basicSort(t.(*types.Basic)).W-1, 0, B.UF("iface_int", I64, typ, pay))
+	case "uint":
+		return B.Extract(basicSort(t.(*types.Basic)).W-1, 0, B.UF("iface_uint", I64, typ, pay))
+	case "float":
+		return B.FPConv(B.UF("iface_float", smt.FP64, typ, pay), basicSort(t.(*types.Basic)))
+	case "complex":
+		s := smt.FP64
+		if k == kComplex64 {
+			s = smt.FP32
+		}
+		return &Struct{[]Value{B.FPConv(B.UF("iface_cre", smt.FP64, typ, pay), s), B.FPConv(B.UF("iface_cim", smt.FP64, typ, pay), s)}}
+	case "str":
+		return B.UF("iface_str", StrS, typ, pay)
+	}
+	unsupported("constant of kind %d", k)
+	return nil
+}
